@@ -116,6 +116,7 @@ class Target:
     config: dict = dataclasses.field(default_factory=dict)  # static string field of `self` -> its value in THIS specialisation (checked against the class annotation and `__init__`); `if self.f == "v":` is decided at translation time
     guard_calls: tuple = ()  # statement-level calls that only raise or return None (argument checks): recorded in the sheet, not translated
     config_fns: tuple = ()  # callable fields of `self` that `__init__` binds in the same block as the `config` value (e.g. activation_fn); `self.f(x)` is translated through that binding
+    methods: dict = dataclasses.field(default_factory=dict)  # python method name -> (lean function, ret type): `<expr>.m()` (no arguments) is translated to `(f <expr>)`
 
 
 # whitelisted library calls: python dotted name -> handler(translator, args(code,type)) -> (code,type)
@@ -581,6 +582,10 @@ class Tr:
                 a = f"({a} : {lean_type(ty)})"
             if tb == "num":
                 b = f"({b} : {lean_type(ty)})"
+            if ta == "num":
+                ta = ty
+            if tb == "num":
+                tb = ty
             if self._num(ta) != self._num(tb):
                 raise Untranslatable(f"comparison {ta} vs {tb}")
             op = type(n.ops[0])
@@ -594,6 +599,8 @@ class Tr:
             if sym is None:
                 raise Untranslatable(ast.dump(n))
             return f"(decide ({a} {sym} {b}))", B
+        if isinstance(n, ast.Subscript) and ast.unparse(n) in self.tgt.consts:
+            return self.tgt.consts[ast.unparse(n)]
         if isinstance(n, ast.Subscript):
             if (isinstance(n.value, ast.Call) and ast.unparse(n.value.func) == "range" and len(n.value.args) == 1
                     and not n.value.keywords):
@@ -638,6 +645,13 @@ class Tr:
             return "(" + ", ".join(p[0] for p in parts) + ")", T(*[p[1] for p in parts])
         if isinstance(n, ast.Call):
             return self.call(n)
+        if isinstance(n, ast.List):
+            if not n.elts:
+                raise Untranslatable("empty list literal")
+            parts = [self.es(x) for x in n.elts]
+            if any(p[1] != parts[0][1] for p in parts):
+                raise Untranslatable("list literal with elements of different types: " + ", ".join(str(p[1]) for p in parts))
+            return "[" + ", ".join(p[0] for p in parts) + "]", ("L", parts[0][1])
         if isinstance(n, ast.IfExp):
             # `v if v is not None else d` on an optional shape
             t = n.test
@@ -649,7 +663,13 @@ class Tr:
                     return f"(match {v} with | some v => v | none => {d})", SH
                 if tv == OSH and td == OSH:
                     return f"(match {v} with | some v => some v | none => {d})", OSH
-            raise Untranslatable("conditional expression")
+            c, t = self._e(n.test)
+            if t != B:
+                raise Untranslatable("conditional expression: test is not a bool")
+            (a, ta), (b, tb) = self.es(n.body), self.es(n.orelse)
+            if ta != tb:
+                raise Untranslatable(f"conditional expression: branches {ta} vs {tb}")
+            return f"(if {c} then {a} else {b})", ta
         raise Untranslatable(ast.dump(n))
 
     def comprehension(self, n):
@@ -771,7 +791,16 @@ class Tr:
                     t == NAT or (isinstance(sd, ast.Constant) and isinstance(sd.value, int) and sd.value >= 0)
                     for t, sd in ((ta, n.left), (tb, n.right))):
                 return f"({a} + {b})", NAT
-            raise Untranslatable(f"arithmetic on a non-negative int other than +: {ta} {sym} {tb}")
+            # static naturals: `*` of two of them, `//` and `%` by a positive literal (Lean's Nat `/`, `%` are Python's on non-negative ints;
+            # a literal divisor rules out the ZeroDivisionError that Lean would totalise to 0); `-` (truncated in Lean) and `/` are refused
+            def _nonneg_lit(sd, t, positive=False):
+                return (t == "num" and isinstance(sd, ast.Constant) and isinstance(sd.value, int) and not isinstance(sd.value, bool)
+                        and sd.value >= (1 if positive else 0))
+            if isinstance(n.op, ast.Mult) and all(t == NAT or _nonneg_lit(sd, t) for t, sd in ((ta, n.left), (tb, n.right))):
+                return f"({a} * {b})", NAT
+            if isinstance(n.op, (ast.FloorDiv, ast.Mod)) and ta == NAT and _nonneg_lit(n.right, tb, positive=True):
+                return f"({a} {sym} {b})", NAT
+            raise Untranslatable(f"arithmetic on a non-negative int other than + * and // % by a positive literal: {ta} {sym} {tb}")
         if ta == EM and tb in (EMC, EMR) and sym in ("+", "-"):
             # broadcast of a log-domain matrix against a `keepdims=True` reduction of matching orientation
             fn = {("-", EMC): "subCol", ("-", EMR): "subRow", ("+", EMC): "addCol", ("+", EMR): "addRow"}[(sym, tb)]
@@ -802,6 +831,16 @@ class Tr:
 
     def call(self, n: ast.Call):
         fn = ast.unparse(n.func)
+        if fn == "eqx.tree_at":
+            return self.tree_at(n)
+        if fn in self.tgt.calls and len(self.tgt.calls[fn]) > 4 and isinstance(self.tgt.calls[fn][4], dict):
+            return self.call_with_keywords(n, fn)
+        if (isinstance(n.func, ast.Attribute) and n.func.attr in self.tgt.methods and fn not in self.tgt.calls
+                and n.func.attr not in BIJ_METHODS and n.func.attr not in DIST_METHODS):
+            if n.args or n.keywords:
+                raise Untranslatable(f"method {n.func.attr} with arguments")
+            lname, rt = self.tgt.methods[n.func.attr]
+            return f"({lname} {self.es(n.func.value)[0]})", rt
         kw = {k.arg: self.es(k.value) for k in n.keywords}
         # method-style .sum()
         if isinstance(n.func, ast.Attribute) and n.func.attr == "sum" and not n.args and fn not in self.tgt.calls:
@@ -942,6 +981,48 @@ class Tr:
             return self._e(ex)
         raise Untranslatable(f"call {fn} in {self.tgt.path}")
 
+    def call_with_keywords(self, n: ast.Call, fn: str):
+        """`calls[fn] = (lean name, ret type, extra, drop, {"used": [...], "ignored": [...]})` (a dict as fifth element; a plain
+        sequence there is the exact keyword order of the ordinary `calls` form): positional arguments first, then the keyword
+        arguments named in `used` (in that order; each must be present); every other keyword must be listed in `ignored`
+        (`**name` for a double-star argument) — a keyword that is neither is a refusal, so a new argument is noticed."""
+        lname, rt, extra, drop, kwspec = self.tgt.calls[fn]
+        if set(kwspec) != {"used", "ignored"}:
+            raise Untranslatable(f"call {fn}: keyword specification must have exactly the entries `used` and `ignored`")
+        used, ignored = kwspec["used"], kwspec["ignored"]
+        argc = [self.es(a)[0] for a in n.args if not (isinstance(a, ast.Name) and a.id in drop)]
+        given = {}
+        for k in n.keywords:
+            nm = k.arg if k.arg is not None else "**" + ast.unparse(k.value)
+            if nm in used:
+                given[nm] = self.es(k.value)[0]
+            elif nm not in ignored:
+                raise Untranslatable(f"call {fn}: keyword {nm} is neither modelled nor declared ignorable")
+        for nm in used:
+            if nm not in given:
+                raise Untranslatable(f"call {fn}: keyword {nm} no longer passed")
+        return "(" + " ".join([lname] + list(extra) + argc + [given[nm] for nm in used]) + ")", rt
+
+    def tree_at(self, n: ast.Call):
+        """`eqx.tree_at(where=lambda t: t.<field>, pytree=<record>, replace=<value>)` -> `{ <record> with <field> := <value> }`"""
+        kws = {k.arg: k.value for k in n.keywords}
+        if n.args or set(kws) != {"where", "pytree", "replace"}:
+            raise Untranslatable("eqx.tree_at form")
+        lam = kws["where"]
+        if not (isinstance(lam, ast.Lambda) and len(lam.args.args) == 1 and isinstance(lam.body, ast.Attribute)
+                and isinstance(lam.body.value, ast.Name) and lam.body.value.id == lam.args.args[0].arg):
+            raise Untranslatable("eqx.tree_at: where is not `lambda t: t.<field>`")
+        base, bt = self.es(kws["pytree"])
+        if not (isinstance(bt, tuple) and bt[0] == "R" and bt[1] in self.structs):
+            raise Untranslatable(f"eqx.tree_at on {bt}")
+        ftypes = dict(self.structs[bt[1]].fields)
+        if lam.body.attr not in ftypes:
+            raise Untranslatable(f"eqx.tree_at: {bt[1]} has no modelled field {lam.body.attr}")
+        rep_, rt = self.es(kws["replace"])
+        if rt != ftypes[lam.body.attr]:
+            raise Untranslatable(f"eqx.tree_at: replacing {lam.body.attr} : {ftypes[lam.body.attr]} by {rt}")
+        return f"({{ {base} with {lam.body.attr} := {rep_} }})", bt
+
     def config_fn_call(self, n: ast.Call, bound):
         """`self.f(args)` where `__init__` binds `self.f = <lib function>` or `self.f = partial(<lib function>, kw=<ctor arg>)`
         and the constructor stores that argument unchanged in `self.<ctor arg>` (checked in `resolve_config`)."""
@@ -974,7 +1055,7 @@ class Tr:
     def body(self, stmts) -> str:
         out = []
         ret = None
-        for st in stmts:
+        for si, st in enumerate(stmts):
             if ret is not None:
                 raise Untranslatable("statement after return")
             if isinstance(st, ast.Expr) and isinstance(st.value, ast.Constant):
@@ -1020,6 +1101,18 @@ class Tr:
                             raise Untranslatable("static if: only assignments are inlined")
                         out += self.assign(b.targets[0], b.value)
                     continue
+                if not st.orelse and st.body and isinstance(st.body[-1], ast.Return) and self.tgt.init_of is None:
+                    # early return: `if c: …; return a` followed by the rest  ->  `if c then a else <rest>`
+                    c, t = self._e(st.test)
+                    if t != B:
+                        raise Untranslatable("early return: test is not a bool")
+                    saved = dict(self.env)
+                    a = self.body(st.body)
+                    self.env = dict(saved)
+                    b = self.body(stmts[si + 1:])
+                    self.env = saved
+                    ret = f"if {c} then\n    ({a})\n  else\n  ({b})"
+                    break  # the rest of the statements is the else-branch
                 raise Untranslatable("if statement in " + self.tgt.path)
             if isinstance(st, (ast.FunctionDef, ast.ClassDef)):
                 continue  # nested definitions are separate targets
@@ -1283,8 +1376,15 @@ def translate_target(repo, tgt: Target, structs) -> tuple[str, Tr]:
             if not hits:
                 raise Untranslatable(f"{tgt.path}: expression {key!r} not found")
             sub_stmts = [ast.Return(value=hits[0])]
-        else:
-            raise Untranslatable("sub kind")
+        elif kind == "default":
+            # the default value of a keyword / positional argument, as written in the signature
+            pos = fn.args.args
+            dfl = dict(zip([a.arg for a in pos[len(pos) - len(fn.args.defaults):]], fn.args.defaults))
+            dfl.update({a.arg: d for a, d in zip(fn.args.kwonlyargs, fn.args.kw_defaults) if d is not None})
+            if key not in dfl:
+                raise Untranslatable(f"{tgt.path}: argument {key} has no default")
+            pyargs = []
+            sub_stmts = [ast.Return(value=dfl[key])]
     declared = dict(tgt.args)
     params = []
     if tgt.selfstruct and tgt.init_of is None:
@@ -1306,11 +1406,18 @@ def translate_target(repo, tgt: Target, structs) -> tuple[str, Tr]:
             and st.targets[0].attr in ok)]
     stmts = list(fn.body) if sub_stmts is None else sub_stmts
     if tgt.part is not None:
-        where, marker = tgt.part
+        where, marker = tgt.part[0], tgt.part[1]
         idx = [i for i, st in enumerate(stmts) if marker in ast.unparse(st) and not isinstance(st, (ast.FunctionDef, ast.ClassDef))]
         if len(idx) != 1:
             raise Untranslatable(f"{tgt.path}: marker {marker!r} found {len(idx)} times")
-        stmts = stmts[: idx[0]] if where == "before" else stmts[idx[0] + 1:]
+        if where == "between":  # ("between", <marker after which to start>, <marker before which to stop>)
+            idx2 = [i for i, st in enumerate(stmts) if tgt.part[2] in ast.unparse(st) and not isinstance(st, (ast.FunctionDef, ast.ClassDef))]
+            if len(idx2) != 1 or idx2[0] <= idx[0]:
+                raise Untranslatable(f"{tgt.path}: end marker {tgt.part[2]!r} found {len(idx2)} times / not after the start marker")
+            stmts = stmts[idx[0] + 1: idx2[0]]
+            where = "before"
+        else:
+            stmts = stmts[: idx[0]] if where == "before" else stmts[idx[0] + 1:]
         stmts = [st for st in stmts if not (isinstance(st, ast.If) and all(isinstance(b, ast.Raise) for b in st.body))]
         if where == "before" or tgt.ret_expr is not None:
             stmts = [st for st in stmts if not isinstance(st, ast.Return)]
